@@ -194,10 +194,48 @@ def read_text(text, suffix, model=None):
         return parser.read_3d_structure(fh, model)
 
 
-def format_twins(structure):
+def hash_bit(text):
+    import hashlib
+
+    return hashlib.blake2b(str(text).encode(), digest_size=1).digest()[0] % 3 != 0
+
+
+def add_alternate_conformers(rows, seed, major="B"):
+    """Give a few residues a second conformer of their base atoms: the original atoms become conformer `major`
+    with occupancy 0.65, a copy displaced by ~1.6 A becomes the other conformer with occupancy 0.35 - so the
+    best-occupied conformer is not necessarily the one labelled A.  Records of the two conformers alternate atom
+    by atom, as deposited files list them."""
+    import random
+
+    rng = random.Random(seed)
+    keys = []
+    for r in rows:
+        k = (r["model"], r["chain"], r["resseq"], r["icode"])
+        if k not in keys:
+            keys.append(k)
+    chosen = set(rng.sample(keys, max(1, len(keys) // 8)))
+    minor = "A" if major == "B" else "B"
+    base_names = {"N1", "C2", "N3", "C4", "C5", "C6", "N7", "C8", "N9", "O6", "N6", "N2", "O2", "O4", "N4"}
+    out = []
+    for r in rows:
+        k = (r["model"], r["chain"], r["resseq"], r["icode"])
+        if k in chosen and r["name"] in base_names:
+            a = dict(r, alt=minor, occ=0.35, x=round(r["x"] + 1.1, 3), y=round(r["y"] - 0.9, 3), z=round(r["z"] + 0.7, 3))
+            b = dict(r, alt=major, occ=0.65)
+            out += [a, b] if minor == "A" else [b, a]
+        else:
+            out.append(dict(r))
+    for i, r in enumerate(out, 1):
+        r["serial"] = i
+    return out
+
+
+def format_twins(structure, altloc_seed=None):
     """(structure read from PDB text, structure read from mmCIF text) of the
     same 3-decimal table, or None when the table does not fit PDB limits."""
     rows = rows_from_structure(structure)
+    if altloc_seed is not None:
+        rows = add_alternate_conformers(rows, altloc_seed, major="B" if hash_bit(altloc_seed) else "A")
     if not rows or not fits_pdb(rows):
         return None
     if any(not (r["chain"] or "").strip() for r in rows):
